@@ -55,7 +55,16 @@ static volatile long produced[MAXO], consumed[MAXO];
 static myth_thread_t self_of[MAXB];
 static int cur_body(void);
 static void dtor1(void *v){ U("U_Dtor", 3, (long)cur_body(), 1L, (long)v); }
-static void dtor2(void *v){ U("U_Dtor", 3, (long)cur_body(), 2L, (long)v); }
+/* destructor 2 may suspend (prologue kind 8, bits: 1|2 = number of yields, 4 = also block on mutex 3): the terminating
+   thread may then continue on another worker */
+static int dyield_on = 0;
+static void lock_(int k, int m); static void unlock_(int k, int m);
+static void dtor2(void *v){ int k = cur_body(); U("U_Dtor", 3, (long)k, 2L, (long)v);
+  if (dyield_on && v){ int i;
+    U("U_DtorIn", 1, (long)k);
+    for (i = 0; i < (dyield_on & 3); i++){ long opt = (i + (long)v) % 3; U("U_YieldCall", 2, (long)k, opt); myth_yield_ex((int)opt); U("U_YieldRet", 1, (long)k); }
+    if (dyield_on & 4){ lock_(k, 3); unlock_(k, 3); }
+    U("U_DtorOut", 1, (long)k); } }
 /* destructor 3 may itself end the thread (prologue kind 6): the first time it is called with a value it calls myth_exit
    with the value the thread was ending with; the exit runs the remaining destructors and must not call this one again */
 static int dexit_on = 0; static volatile long ret_of[256]; static volatile char dexit_done[256], dexit_off[256];
@@ -384,7 +393,7 @@ int main(int argc, char **argv){
   for (i = 0; i < MAXO; i++){ bar_n[i] = 2; jc_n[i] = 1; bufcap[i] = 1; }
   if (fscanf(fp, "%d", &nini) != 1) return 2;
   for (i = 0; i < nini; i++){ int kind, idx, n; if (fscanf(fp, "%d %d %d", &kind, &idx, &n) != 3) return 2;
-    if (kind == 1) bar_n[idx] = n; else if (kind == 2) jc_n[idx] = n; else if (kind == 3) bufcap[idx] = n; else if (kind == 4) ws_mode = n; else if (kind == 5) vstep_ms = n; else if (kind == 6) dexit_on = n; else if (kind == 7) once_body = n; }
+    if (kind == 1) bar_n[idx] = n; else if (kind == 2) jc_n[idx] = n; else if (kind == 3) bufcap[idx] = n; else if (kind == 4) ws_mode = n; else if (kind == 5) vstep_ms = n; else if (kind == 6) dexit_on = n; else if (kind == 7) once_body = n; else if (kind == 8) dyield_on = n; }
   for (i = 0; i < nbodies; i++){
     if (fscanf(fp, "%d", &bodies[i].n) != 1) return 2;
     bodies[i].ops = calloc(bodies[i].n + 1, sizeof(op_t));
